@@ -82,7 +82,13 @@ Definition url_parse (u : bytes) : url_res :=
         | Some (sch, rest) =>
             let '(hier, _) := split_at (N.eqb 63) rest [] in
             match sch with
-            | [] => UUnknown                      (* relative reference: not classified *)
+            | [] =>
+                (* relative reference: classified only in its simplest shape - an empty or single-slash
+                   path over unreserved characters (no scheme, no host; url.Parse accepts it) *)
+                match hier with
+                | 47 :: 47 :: _ => UUnknown
+                | _ => if forallb (fun c => host_char c || (c =? 47)) hier then UOk [] [] false false else UUnknown
+                end
             | _ =>
                 match hier with
                 | 47 :: 47 :: r2 =>
